@@ -3,7 +3,9 @@
    Polygon).  The model follows the Go code statement by statement.  The pseudo-random
    perturbation `sdfRand.Float64()` is an oracle: the list of draws, consumed in order. *)
 From Coq Require Import ZArith List Bool.
-From Sdfx Require Import Num.Ops Geo.Vec Sdf.Build.
+From Sdfx Require Import Num.Ops.
+From Sdfx Require Import Geo.Vec.
+From Sdfx Require Import Sdf.Build.
 Import OpsNotations ListNotations.
 Local Open Scope ops_scope.
 
